@@ -29,14 +29,14 @@ type Prop struct{}
 
 // quickRuns is sized from the measured throughput (see c13_test.go
 // BenchmarkRun): about 41k runs per CPU-second single core (GOMAXPROCS=1), so ~60 CPU-seconds.
-const quickRuns = 2_500_000
+const quickRuns = 8_000_000
 
 func (Prop) ID() string    { return "C13" }
 func (Prop) Level() string { return "exploration" }
 
 func (Prop) Runs(t core.Tier) int {
 	if t == core.Thorough {
-		return quickRuns * 100
+		return quickRuns * 60
 	}
 	return quickRuns
 }
